@@ -1666,7 +1666,11 @@ Examples:
             x = copy.copy(x) #XXX: inefficient
             pairs = connected(mask)
             pairs = pairs.items()
+            tracks = set(n for (m,n) in mask)
             for i,j in pairs:
+                if i in tracks: # the source is the head of the chain, if any
+                    head = [k for k in sorted(j) if k not in tracks][:1]
+                    if head: i,j = head[0], j.union((i,)).difference(head)
                 for k in j:
                     try: x[k] = x[i]
                     except IndexError: pass
